@@ -192,7 +192,67 @@ func c16Client(rc *RunCtx) {
 	u.Close()
 }
 
+// finReader hands out a byte stream in PRNG-sized pieces; the piece that holds
+// the last bytes comes together with io.EOF, as a QUIC stream does when the
+// FIN rides on the last data (the io.Reader contract allows n > 0 with an error).
+type finReader struct {
+	b   []byte
+	off int
+}
+
+func (f *finReader) Read(p []byte) (int, error) {
+	rest := len(f.b) - f.off
+	if rest == 0 {
+		return 0, io.EOF
+	}
+	n := 1 + simrt.Choose(rest)
+	if simrt.Choose(3) == 0 {
+		n = rest
+	}
+	if n > len(p) {
+		n = len(p)
+	}
+	copy(p, f.b[f.off:f.off+n])
+	f.off += n
+	if f.off == len(f.b) {
+		simrt.Fault("fin_with_last_data")
+		return n, io.EOF
+	}
+	return n, nil
+}
+
+// c16Fin: 1-4 good frames on a stream whose end of stream arrives together
+// with the last bytes: every frame must be returned unchanged.
+func c16Fin(rc *RunCtx) {
+	var stream []byte
+	var good [][]byte
+	for i := 0; i < 1+simrt.Choose(4); i++ {
+		p := c16Payload(c16lens[simrt.Choose(8)], byte(i))
+		good = append(good, p)
+		stream = append(stream, byte(len(p)>>8), byte(len(p)))
+		stream = append(stream, p...)
+	}
+	fr := &finReader{b: stream}
+	for i, want := range good {
+		bp, err := dnsutils.ReadRawMsgFromTCP(fr)
+		if err != nil {
+			rc.Fail("messages_lost", "frame %d of %d (%d bytes) on a stream whose FIN rides on its last bytes was not returned: %v", i, len(good), len(want), err)
+			return
+		}
+		if !bytes.Equal(*bp, want) {
+			rc.Fail("message_altered_in_transit", "frame %d altered", i)
+			return
+		}
+		pool.ReleaseBuf(bp)
+	}
+	simrt.Probe("c16.fin_with_data_ok")
+}
+
 func c16RW(rc *RunCtx) {
+	if simrt.Choose(5) == 0 {
+		c16Fin(rc)
+		return
+	}
 	a, b := c16Pipe(rc)
 	n := 1 + simrt.Choose(6)
 	type sent struct {
@@ -419,6 +479,38 @@ func c16Damage(rc *RunCtx) {
 	b.Close()
 }
 
+// c16yield is the rdata of a private RR type whose Pack yields to the
+// scheduler: packing a message takes time, and other handler tasks of the same
+// connection run (and pack their own replies) meanwhile.
+type c16yield struct{ b []byte }
+
+func (y *c16yield) String() string { return fmt.Sprintf("yield(%d)", len(y.b)) }
+func (y *c16yield) Parse(txt []string) error { return nil }
+func (y *c16yield) Pack(buf []byte) (int, error) {
+	if simrt.S != nil {
+		simrt.Yield(0)
+	}
+	if len(buf) < len(y.b) {
+		return 0, fmt.Errorf("buffer too small")
+	}
+	return copy(buf, y.b), nil
+}
+func (y *c16yield) Unpack(buf []byte) (int, error) {
+	y.b = append([]byte(nil), buf...)
+	return len(buf), nil
+}
+func (y *c16yield) Copy(dest dns.PrivateRdata) error {
+	dest.(*c16yield).b = append([]byte(nil), y.b...)
+	return nil
+}
+func (y *c16yield) Len() int { return len(y.b) }
+
+const c16yieldType = 65281
+
+func init() {
+	dns.PrivateHandle("SIMYIELD", c16yieldType, func() dns.PrivateRdata { return new(c16yield) })
+}
+
 type c16handler struct {
 	rc   *RunCtx
 	sent map[string]bool // question names of the queries the clients really framed
@@ -452,6 +544,13 @@ func (h *c16handler) Handle(ctx context.Context, q *dns.Msg, meta server.QueryMe
 	for r.Len() < size-270 {
 		r.Answer = append(r.Answer, &dns.TXT{Hdr: dns.RR_Header{Name: q.Question[0].Name, Rrtype: dns.TypeTXT, Class: 1, Ttl: uint32(salt)},
 			Txt: []string{string(bytes.Repeat([]byte{byte('a' + salt%26)}, 250))}})
+	}
+	if simrt.Choose(3) == 0 {
+		// a record whose packing yields (see c16yield): the last record, so that the
+		// rest of the message is already in the pack buffer when others run
+		r.Extra = append(r.Extra, &dns.PrivateRR{Hdr: dns.RR_Header{Name: q.Question[0].Name, Rrtype: c16yieldType, Class: 1, Ttl: uint32(salt)},
+			Data: &c16yield{b: bytes.Repeat([]byte{byte('a' + salt%26)}, 16)}})
+		simrt.Fault("reply_packing_yields")
 	}
 	b, err := pack(r)
 	if err != nil {
@@ -551,6 +650,15 @@ func c16Server(rc *RunCtx) {
 				}
 				var salt, size int
 				fmt.Sscanf(q.Question[0].Name, "s%d.k%d.", &size, &salt)
+				for _, rr := range m.Extra {
+					if p, ok := rr.(*dns.PrivateRR); ok {
+						y, _ := p.Data.(*c16yield)
+						if y == nil || len(y.b) != 16 || y.b[0] != byte('a'+salt%26) || p.Hdr.Name != q.Question[0].Name {
+							rc.Fail("frame_not_one_intact_reply", "client %d: reply %d carries a foreign or damaged trailing record", ci, m.Id)
+							return
+						}
+					}
+				}
 				for _, rr := range m.Answer {
 					t := rr.(*dns.TXT)
 					if len(t.Txt) != 1 || len(t.Txt[0]) != 250 || t.Txt[0][0] != byte('a'+salt%26) || t.Txt[0][249] != byte('a'+salt%26) {
